@@ -486,7 +486,7 @@ func cmdCheck(args []string) int {
 		data, _ := json.MarshalIndent(v, "", " ")
 		os.WriteFile(path, data, 0o644)
 		fmt.Printf("VIOLATION property=%s replay=%s\n", cs.Property, path)
-		fmt.Printf("  harness=%s label=%s inputs=%v observed=%v %s\n", v.Harness, v.Label, v.Inputs, v.Obs, v.Panic)
+		fmt.Printf("  harness=%s label=%s inputs=%s observed=%v %s\n", v.Harness, v.Label, shortInputs(v.Inputs), v.Obs, v.Panic)
 		if *noReplay {
 			bump(3)
 		} else {
@@ -505,7 +505,7 @@ func cmdCheck(args []string) int {
 				if !*noReplay && !confirmed[v] {
 					status = " (NOT reproduced natively)"
 				}
-				fmt.Printf("KNOWN-FINDING: property=%s %s [%s; harness=%s label=%s inputs=%v]%s\n", cs.Property, kf.What, kf.ID, v.Harness, v.Label, v.Inputs, status)
+				fmt.Printf("KNOWN-FINDING: property=%s %s [%s; harness=%s label=%s inputs=%s]%s\n", cs.Property, kf.What, kf.ID, v.Harness, v.Label, shortInputs(v.Inputs), status)
 			}
 		}
 	}
@@ -517,6 +517,13 @@ func cmdCheck(args []string) int {
 	fmt.Printf("RESULT property=%s tier=%s exit=%d paths=%d queries=%d (sat=%d unsat=%d unknown=%d) solver_time=%v wall=%.1fs\n",
 		cs.Property, *tier, exit, totalPaths(results), eng.stats.Queries, eng.stats.Sat, eng.stats.Unsat, eng.stats.Unknown, fmtTimes(eng.stats.TimeS), wall)
 	return exit
+}
+
+func shortInputs(in []uint64) string {
+	if len(in) <= 32 {
+		return fmt.Sprint(in)
+	}
+	return fmt.Sprintf("%v…(+%d more, see replay file)", in[:32], len(in)-32)
 }
 
 func flagSet(fs *flag.FlagSet, name string) bool {
